@@ -4,14 +4,14 @@ F = "harness/C02_correct.py"
 EXPLANATION = (
     "CrossHair/z3 symbolic execution of the real core commands (set_correct, compliment, give_partial, explain, gently), "
     "Feedback(...), report.suppress and simple.resolve. Each obligation creates 2 (quick) or 3 (thorough) feedbacks from an "
-    "11-entry constructor menu (incl. correct=True feedback that sorts before the mistakes) in creation order with symbolic activate / muted flags, symbolic (unbounded) message strings and "
+    "12-entry constructor menu (incl. correct=True feedback that sorts before the mistakes) in creation order with symbolic activate / muted flags, symbolic (unbounded) message strings and "
     "symbolic suppress('instructor') / suppress('Runtime') / suppress('correct') switches. Oracle from the property text: "
     "final.correct == final.success == to_json()['correct'] == all(bool(f.correct) for triggered, unmuted, unsuppressed, "
     "non-compliment f), and never correct while such a feedback of category syntax/runtime/algorithmic/instructor/specification "
     "with falsy correct exists. Verdict per obligation: 'Confirmed over all paths' or a natively replayed counterexample.")
 FUNCTIONS = ["pedal.core.commands.set_correct/compliment/give_partial/explain/gently", "pedal.core.feedback.Feedback.__init__",
              "pedal.core.report.Report.suppress", "pedal.resolvers.simple.resolve", "FinalFeedback.merge/finalize/to_json"]
-BOUNDS = {"quick": {"feedbacks": "N=2 from 11 constructors (all 121 ordered pairs), flags and 3 suppress switches symbolic, messages unbounded symbolic strings"},
+BOUNDS = {"quick": {"feedbacks": "N=2 from 12 constructors (all 144 ordered pairs), flags and 3 suppress switches symbolic, messages unbounded symbolic strings"},
           "thorough": {"feedbacks": "N=2 as quick plus N=3 (all 512 ordered triples) with concrete messages and suppress('instructor')"}}
 OUTSIDE = ["N > 3", "assert_* feedback classes as makers (their 'correct' attribute is the Feedback default; covered by the generic Feedback makers)", "sectional/full resolvers"]
 ASSUMPTIONS = ["FeedbackFieldWrapper copy-safety shim in the harness process"]
@@ -19,11 +19,11 @@ ASSUMPTIONS = ["FeedbackFieldWrapper copy-safety shim in the harness process"]
 
 def obligations(tier):
     w = "final.correct == success == to_json()['correct'] == AND of f.correct over eligible feedback; never correct with a visible triggered negative"
-    obs = [Ob("C02.correct2", F, "correct2", 300, part=str(k), what=w) for k in range(11)]
+    obs = [Ob("C02.correct2", F, "correct2", 300, part=str(k), what=w) for k in range(12)]
     obs.append(Ob("C02.correct_fields", F, "correct_fields", 120, what="a suppression naming two fields hides the mistake (and makes the result correct) exactly when both fields match; symbolic int field values"))
     for k in ((4, 5, 7) if tier == "quick" else (3, 4, 5, 7, 10)):
         obs.append(Ob("C02.correct_unscored", F, "correct_unscored", 300, part=str(k), what="unscored=True removes a feedback from the score, not from the verdict: a visible triggered mistake keeps the result incorrect (first maker = partition; activate / muted / unscored symbolic)"))
-    for k in ((0, 4, 7) if tier == "quick" else range(11)):
+    for k in ((0, 4, 7) if tier == "quick" else range(12)):
         obs.append(Ob("C02.correct_again", F, "correct_again", 300, part=str(k), what="history on one report: resolve, then suppress(category) / suppress(label=) / flip muted / add a mistake / add set_correct / nothing, resolve again - each verdict is the one for the report's state at that moment"))
     obs.append(Ob("C02.correct_reach", F, "correct_reach", 60, expect="refute", what="twin: set_correct() outvoted by a visible gently()"))
     if tier == "thorough":
